@@ -11,9 +11,12 @@ import (
 
 type unsubscribeTransaction struct {
 	*transaction
+	// handlersMark tells which message handlers existed when the
+	// Unsubscribe call started (see messageHandlers).
+	handlersMark uint64
 }
 
-func newUnsubscribeTransaction(client *Client, msgID uint16) *unsubscribeTransaction {
+func newUnsubscribeTransaction(client *Client, msgID uint16, handlersMark uint64) *unsubscribeTransaction {
 	tLog := client.log.WithTag(fmt.Sprintf("UNSUBSCRIBE(%d)", msgID))
 	tLog.Debug("Created.")
 	return &unsubscribeTransaction{
@@ -32,6 +35,7 @@ func newUnsubscribeTransaction(client *Client, msgID uint16) *unsubscribeTransac
 			client: client,
 			log:    tLog,
 		},
+		handlersMark: handlersMark,
 	}
 }
 
@@ -63,8 +67,9 @@ func (t *unsubscribeTransaction) Unsuback(_ *pkts1.Unsuback) {
 		topicName,
 	)
 
-	t.client.messageHandlers.delete(
+	t.client.messageHandlers.revokeUpTo(
 		strings.Split(topicName, "/"),
+		t.handlersMark,
 	)
 
 	t.Success()
